@@ -3,9 +3,35 @@
 package vsched
 
 import (
+	"cmp"
 	"fmt"
+	"iter"
+	"slices"
 	"sync"
 )
+
+// SortedMap iterates a map in ascending key order (what instrumented
+// `for k, v := range m` loops over listed maps become), so that the order of
+// visible operations does not depend on Go's randomised map iteration.
+// Entries deleted during the iteration are skipped, as with a real map.
+func SortedMap[K cmp.Ordered, V any](m map[K]V) iter.Seq2[K, V] {
+	return func(yield func(K, V) bool) {
+		keys := make([]K, 0, len(m))
+		for k := range m {
+			keys = append(keys, k)
+		}
+		slices.Sort(keys)
+		for _, k := range keys {
+			v, ok := m[k]
+			if !ok {
+				continue
+			}
+			if !yield(k, v) {
+				return
+			}
+		}
+	}
+}
 
 // Drop-in replacements for the parts of package sync the repository uses.
 
